@@ -37,6 +37,22 @@ def run(ctx):
         lim, off = LIMOFFS[(n + 3) % len(LIMOFFS)]
         q = dict(**{"from": fs}, where=[], list=jl[lg]["list"], group=jl[lg]["group"], order=[], limit=lim, offset=off, style=n % 8)
         cases.append(dict(db={"t7": tables[t]}, q=q, _t=("j", t)))
+    # many groups (more than any fixed-size scratch structure an implementation may keep between statements), and the same
+    # statements again afterwards in the same process: 150-260 distinct values in p, three in q
+    def cell(t, v=0, s=()):
+        return dict(t=t, v=v, s=list(s))
+    avg_lgs = [x for x in lgs if x["group"] and any(it["k"] == "avg" for it in x["list"])]
+    for b in range(2 if ctx.quick() else 8):
+        ng = rng.randrange(150, 260)
+        rows = [[cell("i", i % ng + 1), cell("i", i % 3), cell("i", (i * 7) % 23 - 5), cell("i", i % 5) if i % 4 else cell("n"),
+                 cell("s", 0, [97 + i % 2]), cell("s", 0, [97, 32, 98 + i % 2]), cell("b", i % 2) if i % 3 else cell("n")]
+                for i in range(ng + rng.randrange(20, 120))]
+        tab = dict(cols=tables[0]["cols"], rows=rows)
+        picks = [avg_lgs[(b * 5 + j) % len(avg_lgs)] for j in range(4)]
+        for rep in range(2):
+            for x in picks:
+                q = dict(**{"from": FROM7}, where=[], list=x["list"], group=x["group"], order=[], limit=-1, offset=-1, style=(b + rep) % 8)
+                cases.append(dict(db={"t7": tab}, q=q, _t=("many", b)))
     pool = vlib.WorkerPool(ctx, binary)
     try:
         semlib.execute(ctx, pool, cases, lambda c: c["_t"])
